@@ -44,8 +44,9 @@ func consumeSingleTURNFrame(b []byte) (int, error) {
 	// wraps around and yields frames of zero or four bytes.
 	var datagramSize int
 	switch {
-	case stun.IsMessage(b):
-		datagramSize = int(binary.BigEndian.Uint16(b[2:4])) + stunHeaderSize
+	// The channel number is looked at first: the first two bits tell ChannelData (01) from
+	// STUN (00), while stun.IsMessage only looks for the magic cookie in bytes 4..7, which
+	// in a ChannelData frame are application data.
 	case ChannelNumber(binary.BigEndian.Uint16(b[0:2])).Valid():
 		datagramSize = int(binary.BigEndian.Uint16(b[channelDataNumberSize:channelDataHeaderSize]))
 		if paddingOverflow := datagramSize % channelDataPadding; paddingOverflow != 0 {
@@ -53,6 +54,8 @@ func consumeSingleTURNFrame(b []byte) (int, error) {
 		}
 
 		datagramSize += channelDataHeaderSize
+	case stun.IsMessage(b):
+		datagramSize = int(binary.BigEndian.Uint16(b[2:4])) + stunHeaderSize
 	case len(b) < stunHeaderSize:
 		return 0, errIncompleteTURNFrame
 	default:
